@@ -8,7 +8,10 @@ field / ciphertext / tag, truncation, extension, header transplant, re-addressin
 another source node in the nonce, replay), injects it into the real receive path, and observes what the receiving
 application gets and whether the targeted session's snapshot (counters, receive window, exchanges, key fingerprints)
 changed; then the genuine datagrams must still be delivered intact. One extra case per mode / shape flips every single
-bit of a genuine datagram."""
+bit of a genuine datagram.  Group sessions: the device has a real fabric with one group key set mapped to two groups; the
+reference additionally covers the source node id and the destination group id of the header (flipped, transplanted to
+the other group, another source identity in the nonce) and a second genuine sender while the first sender's ephemeral
+session is still alive - every delivered message must arrive on a session whose peer is the sender it names."""
 import json, os
 import vlib
 from vlib import Check
@@ -27,6 +30,8 @@ def run(tier, seed):
         for shape in ("unreliable", "reliable"):
             for ln in ((16,) if tier != "thorough" else (0, 16, 900)):
                 cases.append({"mode": mode, "shape": shape, "len": ln, "cls": "allBits", "authentic": False, "deliver": False})
+    for ln in ((16,) if tier != "thorough" else (1, 16, 900)):
+        cases.append({"mode": "group", "shape": "unreliable", "len": ln, "cls": "allBits", "authentic": False, "deliver": False, "from": 100})
     cpath = os.path.join(wd, "cases.ndjson")
     vlib.write_ndjson(cpath, cases)
     tpath = os.path.join(wd, "trace.ndjson")
@@ -43,12 +48,16 @@ def run(tier, seed):
             n_gen += 1
             if not t["delivered"] or not t["intact"]:
                 ck.violation("C03|genuine-not-delivered|" + tag, "a genuine datagram was not delivered intact after the injection (%s)" % t["label"], {"case": c, "real": t})
+            elif not t.get("from_ok", True):
+                ck.violation("C03|wrong-sender|" + tag, "a genuine datagram was delivered on a session of another peer than its sender", {"case": c, "real": t})
             continue
         n_mut += 1
-        expect = c["deliver"] if t["label"] == "mut" else False
+        expect = c["deliver"] if t["label"] in ("mut", "mut2") else False
         if t["delivered"] != expect:
             ck.violation("C03|%s|%s" % ("delivered-unauthentic" if t["delivered"] else "rejected-authentic", tag),
                          "injection %s: delivered=%s, reference says %s" % (t["label"], t["delivered"], expect), {"case": c, "real": t})
+        elif expect and not t.get("from_ok", True):
+            ck.violation("C03|wrong-sender|" + tag, "an authentic datagram of node %s was delivered on the session of another peer: %s" % (t.get("from"), json.dumps(t.get("delivered_what"))), {"case": c, "real": t})
         elif not expect and c["cls"] != "replay" and not t["silent"]:
             ck.violation("C03|reject-not-silent|" + tag, "a rejected datagram (%s) changed the targeted session" % t["label"], {"case": c, "real": t})
     if n_mut < 200:
@@ -59,6 +68,6 @@ def run(tier, seed):
         "reference_invariant": "AcceptOnlyAuthentic (checked by TLC on every enumerated case)",
         "samples": [cases[0], cases[5], tr[0], tr[3]],
     })
-    ck.assumptions += ["unicast sessions (CASE, PASE) with planted keys; group sessions are covered at the counter level by C04 only",
+    ck.assumptions += ["unicast sessions (CASE, PASE) with planted keys; group data messages with one key set mapped to two groups and two senders (group control / MCSP messages are not injected)",
                        "the snapshot compared for RejectIsSilent excludes the last-use timestamp"]
     return ck.finish()
